@@ -31,6 +31,29 @@ def split_first(s):
     return lab + cn + join_tokens(toks[:k]), join_tokens(toks[k:])
 
 
+def long_string_index(toks):
+    """index of the first character-literal token with at least four characters between the quotes (no doubled quote next to the split)"""
+    for i, (t, sp) in enumerate(toks):
+        if t[:1] in "'\"" and len(t) >= 6:
+            m = len(t) // 2
+            if t[m - 1] not in "'\"" and t[m] not in "'\"":
+                return i
+    return None
+
+
+def split_in_string(s):
+    """Split a statement inside its first long character literal: (head ending inside the literal, tail starting inside it)."""
+    lab = ("%d " % s["label"]) if s["label"] else ""
+    cn = (s["cname"] + ": ") if s["cname"] else ""
+    toks = layout_tokens(s["text"])
+    i = long_string_index(toks)
+    t, sp = toks[i]
+    m = len(t) // 2
+    head = lab + cn + join_tokens(toks[:i]) + (sp if i else "") + t[:m]
+    tail = t[m:] + "".join(sp2 + t2 for t2, sp2 in toks[i + 1:])
+    return head, tail
+
+
 def layout_tokens(text):
     """Tokens of a statement as (text, blank_before) keeping the original spacing, with `(/` and `/)` merged."""
     out = []
@@ -59,6 +82,7 @@ def layout(out, ed):
     pre = {i: [] for i in range(1, n + 2)}      # lines inserted before statement i
     trail = {}
     cont = {}
+    strcont = {}
     garb = None
     sent = {}
     incs = []
@@ -78,8 +102,10 @@ def layout(out, ed):
                 pre[e["pos"]].append(("cmt", j, [CMT[e["b"]]]))
             elif e["a"] == 2:
                 trail[e["pos"]] = (j, CMT[e["b"]])
-            else:
+            elif e["a"] == 3:
                 cont[e["pos"]] = (j, CMT[e["b"]])
+            else:
+                strcont[e["pos"]] = (j, CMT[e["b"]])
         elif t == "cpp":
             pre[e["pos"]].append(("cpp", j, CPP[e["a"]]))
         elif t == "garb":
@@ -111,6 +137,12 @@ def layout(out, ed):
             phys.append((i, ind + sp[0] + " &"))
             phys.append((i, ind + "  " + cont[i][1]))
             phys.append((i, ind + "    " + sp[1]))
+        elif i in strcont:
+            # the comment line sits between the two halves of a continued character literal (F2008 3.3.2.4)
+            head, tail = split_in_string(s)
+            phys.append((i, ind + head + "&"))
+            phys.append((i, ind + "  " + strcont[i][1]))
+            phys.append((i, ind + "    &" + tail))
         elif i in sent:
             if sent[i] >= 1:
                 sp = split_first(s)
